@@ -70,6 +70,8 @@ func init() {
 	addRules("C19", "R-SIZEPAIR")
 	addRules("C20", "R-TXPAIR")
 	addRules("C21", "R-RAWREAD")
+	addRules("C07", "R-ZSCORE")
+	reg("R-ZSCORE", "In ds/zset the ordering keys (score, key) of a skiplist node are stored only while the node is constructed; an in-place score store on a linked node must be dominated by strict comparisons placing the new score between both level-0 neighbours' scores (or by their absence).", ruleZScore)
 	addRules("C20", "R-ALLOC-BOUND")
 	reg("R-ALLOC-BOUND", "No make() in the module takes a length or capacity that derives (arithmetic, conversions, phis, module calls and their results) from an integer parameter of an exported Tx method or from an integer the appliers decode from a stored record, unless an upper clamp against an untainted bound intervenes.", ruleAllocBound)
 	addRules("C15", "R-MERGE-EVERY", "R-MERGE-NEWER")
